@@ -14,12 +14,13 @@ structure Bar where
   flagOpen : Bool           -- `timestamp in market._data.index`
   book     : List Instr     -- `_data.loc[timestamp.floor("1h")]` (empty when the hour is missing)
   price    : Rat            -- `token_prices.loc[timestamp][token]`
+  priceDec : Bool           -- Decimal (through `Actuator.set_price`) or float
   ops      : List Op        -- what the strategy does in `on_bar`
 deriving Repr
 
 /-- `set_market_status` with `data.data is None` -/
 def setStatus (s : DState) (b : Bar) : DState :=
-  { s with now := b.now, flagOpen := b.flagOpen, book := b.book, price := b.price }
+  { s with now := b.now, flagOpen := b.flagOpen, book := b.book, price := b.price, priceDec := b.priceDec }
 
 /-- does a successful call set `has_update`? only `write_func`s (buy, sell) do -/
 def Op.isWrite : Op → Bool
@@ -51,9 +52,20 @@ def runBar (cx : DCtx) (c : TokenCfg) (s : DState) (b : Bar) : BarResult :=
       | .ok (.balance bal) => bal
       | _ => none }
 
-/-- the whole loop -/
+/-- before the loop `Actuator.run` sets the first bar's status and takes the initial account status
+    (which caches the market balance when the first bar is on the hourly grid) -/
+def runInit (cx : DCtx) (c : TokenCfg) (s : DState) (b : Bar) : DState :=
+  (getMarketBalance cx c (setStatus s b)).2
+
+/-- the loop proper -/
 def runBars (cx : DCtx) (c : TokenCfg) : DState → List Bar → DState
   | s, [] => s
   | s, b :: bs => runBars cx c (runBar cx c s b).state bs
+
+/-- `Actuator.run` as this market sees it -/
+def runAll (cx : DCtx) (c : TokenCfg) (s : DState) (bs : List Bar) : DState :=
+  match bs with
+  | [] => s
+  | b :: _ => runBars cx c (runInit cx c s b) bs
 
 end Demeter.Deribit
